@@ -539,6 +539,14 @@ pub fn map_group_by(
         }
     };
 
+    // The callback may remove the elements it has not seen yet from the source
+    // array: root the whole copy, not only the element being visited
+    for element in &elements {
+        if let JsValue::Object(obj) = element {
+            guard.guard(obj.cheap_clone());
+        }
+    }
+
     // Create a new Map for the result
     let size_key = PropertyKey::String(interp.intern("size"));
     let map_obj = interp.create_object(&guard);
